@@ -18,6 +18,12 @@
 // stderr).  The second unit's types cannot be named here: every typed operation on them is a function of h_c20_b.h; in this file
 // they are represented by the proxy tags BX<0..2> and `Y<T>` is the one place that says how an operation is done for a type.
 // Typed access to a holder with the other unit's type of the same name must be refused exactly like any other wrong type.
+// Types 24, 25 are a POLYMORPHIC pair: PBase (virtual destructor, 16 bytes) and PDerived : PBase (24 bytes), instrumented like the
+// payloads (one registry id per object, counted construction / destruction; the derived part's destruction is recorded separately).
+// Pseudo-tag 26 (op `new` and as a map name's type only) = "a PDerived object owned through a PBase*": the client's pointer is a
+// PBase*, so every adoption of it (assimilate, ValueMap::add, NotifiedValue<PBase> with a creator that returns a new PDerived) is an
+// adoption AS PBase - the holder's type is PBase (the type it was adopted as), value_cast<PBase> yields the object, value_cast<PDerived>
+// is refused, a copy of the holder is a (sliced) PBase, and clear / ~ValueStore destroy the whole PDerived through the virtual destructor.
 #include "common.h"
 #include <map>
 #include <set>
@@ -55,12 +61,13 @@ namespace Po = Potassco::ProgramOptions;
 // ------------------------------------------------------------------------------------------------------------
 // registry of instrumented objects
 // ------------------------------------------------------------------------------------------------------------
-struct Info { int ty; ll val; int ctor; int dtor; };
+struct Info { int ty; ll val; int ctor; int dtor; int dpart; };   // dpart: 0 no derived part, 1 derived part alive, 2 derived part destroyed
 static std::vector<Info> reg;
 static int integrity = 0;   // 1: dead / foreign object touched or destroyed twice, 2: id space exhausted, 3: bytes of a live object's value changed behind its back,
-                            // 4: checked typed access handed out an object although the holder's type() is another type, 5: the forms of value_cast disagree
+                            // 4: checked typed access handed out an object although the holder's type() is another type, 5: the forms of value_cast disagree,
+                            // 6: the base part of a PDerived object was destroyed without its derived part (destroyed as its static type only)
 static size_t regNew(int ty, ll v) {
-	Info i = {ty, v, 1, 0};
+	Info i = {ty, v, 1, 0, 0};
 	reg.push_back(i);
 	if (reg.size() > 255) integrity = 2;
 	return reg.size() - 1;
@@ -105,6 +112,43 @@ private:
 };
 typedef Pay<0, B1> P1; typedef Pay<1, B4> P4; typedef Pay<2, B8> P8; typedef Pay<3, B16> P16; typedef Pay<4, BS> PS; typedef Pay<5, BV> PV;
 typedef Pay<11, B9> P9; typedef Pay<12, B12> P12; typedef Pay<13, B15> P15;
+// polymorphic pair (tags 24, 25): one registry entry per object, registered by the PBase constructor; reg[id].ty is the DYNAMIC type
+// (24 for a PBase, 25 for a PDerived), so members of PBase accept both and members of PDerived only 25.  Every byte of the value
+// fields is a function of the value (checked at every read: integrity 3); the refill after a write goes through a virtual function,
+// so a write through a PBase& to a PDerived object keeps the derived field consistent.
+static inline uint32_t pchk(ll v) { return (uint32_t)((uint64_t)v * 2654435761u + 17u); }
+static inline uint64_t pext(ll v) { return (uint64_t)v * 0x9E3779B97F4A7C15ull + 5u; }
+struct PBase {
+	uint32_t id; uint32_t chk;
+	explicit PBase(ll v = 0) : id((uint32_t)regNew(24, v)), chk(pchk(v)) {}
+	PBase(const PBase& o) {                // also the slicing copy of a PDerived: the new object is a PBase
+		size_t n = o.alive() ? regNew(24, reg[o.id].val) : (integrity = 1, regNew(24, 0));
+		id = (uint32_t)n; chk = pchk(reg[n].val);
+	}
+	virtual ~PBase() {
+		if (id < reg.size() && reg[id].dtor == 0 && reg[id].dpart == 1 && integrity == 0) integrity = 6;
+		regDestroy(id < reg.size() && reg[id].ty == 25 ? 25 : 24, id);
+	}
+	bool alive() const { return id < reg.size() && reg[id].dtor == 0 && (reg[id].ty == 24 || reg[id].ty == 25); }
+	virtual void fill(ll v) { chk = pchk(v); }
+	virtual bool good(ll v) const { return chk == pchk(v); }
+	ll   get() const { if (!alive()) { integrity = 1; return -777; } if (!good(reg[id].val)) { if (integrity == 0) integrity = 3; } return reg[id].val; }
+	void set(ll v) { if (!alive()) { integrity = 1; return; } reg[id].val = v; fill(v); }
+private:
+	PBase& operator=(const PBase&);
+};
+struct PDerived : PBase {
+	uint64_t extra;
+	explicit PDerived(ll v = 0) : PBase(v), extra(pext(v)) { reg[id].ty = 25; reg[id].dpart = 1; }
+	PDerived(const PDerived& o) : PBase(o), extra(0) { reg[id].ty = 25; reg[id].dpart = 1; extra = pext(reg[id].val); if (!o.aliveD()) integrity = 1; }
+	~PDerived() { if (aliveD() && reg[id].dpart == 1) reg[id].dpart = 2; else integrity = 1; }
+	bool aliveD() const { return id < reg.size() && reg[id].dtor == 0 && reg[id].ty == 25; }
+	void fill(ll v) { PBase::fill(v); extra = pext(v); }
+	bool good(ll v) const { return PBase::good(v) && extra == pext(v); }
+	ll   getD() const { if (!aliveD()) { integrity = 1; return -777; } return get(); }
+	void setD(ll v) { if (!aliveD()) { integrity = 1; return; } set(v); }
+};
+static PBase* createDerivedAsBase() { return new PDerived(); }      // creator of the NotifiedValue<PBase> of a name of pseudo-type 26
 // plain aggregates (trivially copyable): value v <-> all bytes
 struct T12 { int a, b, c; };               // the "struct of three ints"
 struct T9  { unsigned char c[9]; };
@@ -122,6 +166,8 @@ static_assert(sizeof(Setting) == 8 && sizeof(Triple) == 12 && sizeof(Record) == 
 static_assert(sizeof(P1) == 1 && sizeof(P4) == 4 && sizeof(P8) == 8 && sizeof(P16) == 16 && sizeof(PS) == 40 && sizeof(PV) == 32, "model: size_of 0..5");
 static_assert(sizeof(bool) == 1 && sizeof(int) == 4 && sizeof(const void*) == 8 && sizeof(std::string) == 32 && sizeof(std::vector<int>) == 24, "model: size_of 6..10");
 static_assert(sizeof(P9) == 9 && sizeof(P12) == 12 && sizeof(P15) == 15 && sizeof(T12) == 12 && sizeof(T9) == 9 && sizeof(T16) == 16 && sizeof(T8) == 8, "model: size_of 11..17");
+static_assert(sizeof(PBase) == 16 && sizeof(PDerived) == 24, "model: size_of 24, 25");
+static_assert(std::has_virtual_destructor<PBase>::value && std::is_base_of<PBase, PDerived>::value && std::is_polymorphic<PDerived>::value, "tags 24 / 25: polymorphic base and derived class");
 static_assert(sizeof(Po::ValueStore) == 2 * sizeof(void*), "a holder is its vtable pointer and ONE word of storage (coq/C20/Fits.v)");
 
 static char pool[1000];
@@ -133,6 +179,10 @@ template <int TY, class B> struct TT<Pay<TY, B> > {
 	static void set(T& x, ll v) { x.set(v); }
 	static ll   oid(const T& x) { return (ll)x.id; }
 };
+template <> struct TT<PBase> { typedef PBase T; enum { code = 24 };
+	static T make(ll v) { return T(v); } static ll value(const T& x) { return x.get(); } static void set(T& x, ll v) { x.set(v); } static ll oid(const T& x) { return (ll)x.id; } };
+template <> struct TT<PDerived> { typedef PDerived T; enum { code = 25 };
+	static T make(ll v) { return T(v); } static ll value(const T& x) { return x.getD(); } static void set(T& x, ll v) { x.setD(v); } static ll oid(const T& x) { return (ll)x.id; } };
 template <> struct TT<bool> { enum { code = 6 };
 	static bool make(ll v) { return v != 0; } static ll value(const bool& x) { return x ? 1 : 0; } static void set(bool& x, ll v) { x = v != 0; } static ll oid(const bool&) { return -1; } };
 template <> struct TT<int> { enum { code = 7 };
@@ -174,7 +224,11 @@ template <> struct TT<Record> { enum { code = 20 }; typedef Record T;
 	static ll value(const T& x) { return x.name == sval(x.level) ? x.level : -888; }
 	static void set(T& x, ll v) { x = make(v); } static ll oid(const T&) { return -1; } };
 
-enum { NTY = 24, FIRST_B = 21 };
+enum { NTY = 26, FIRST_B = 21, P_BASE = 24, P_DERIVED = 25, ADOPT_DERIVED = 26 };
+// the type a client object / a map name of (pseudo-)type ty is owned, adopted and registered AS
+static ll staticTy(ll ty) { return ty == ADOPT_DERIVED ? (ll)P_BASE : ty; }
+// the other class of the polymorphic pair (-1: none)
+static int kin(ll ty) { return ty == P_BASE ? (int)P_DERIVED : ty == P_DERIVED ? (int)P_BASE : -1; }
 // the type of the same spelling in the other translation unit (-1: none)
 static int twin(ll ty) { return ty >= 18 && ty <= 20 ? (int)ty + 3 : ty >= 21 && ty <= 23 ? (int)ty - 3 : -1; }
 template <class F> static void dispatch(ll ty, F f) {
@@ -186,6 +240,7 @@ template <class F> static void dispatch(ll ty, F f) {
 		case 14: f((T12*)0); break; case 15: f((T9*)0); break; case 16: f((T16*)0); break; case 17: f((T8*)0); break;
 		case 18: f((Setting*)0); break; case 19: f((Triple*)0); break; case 20: f((Record*)0); break;
 		case 21: f((BX<0>*)0); break; case 22: f((BX<1>*)0); break; case 23: f((BX<2>*)0); break;
+		case 24: f((PBase*)0); break; case 25: f((PDerived*)0); break;
 		default: break;
 	}
 }
@@ -329,6 +384,8 @@ struct A {
 	bool okm(ll n) const { return n >= 0 && n < M; }
 	Po::Value* makeNV(ll n) {
 		Po::Value* r = 0;
+		// pseudo-type 26: what store<PBase>(map, parser) builds, but with a creator that returns a new PDerived as PBase*
+		if (tys[(size_t)n] == ADOPT_DERIVED) return new Po::NotifiedValue<PBase>(&createDerivedAsBase, Po::detail::Notifier<const PBase*>(vm, &Po::ValueMap::add<PBase>), &parseT<PBase>);
 		dispatch(tys[(size_t)n], [&](auto* tag) { typedef TYPE_OF(tag) T; r = Y<T>::makeNV(*vm); });
 		return r;
 	}
@@ -350,6 +407,8 @@ struct A {
 		// the type of the same spelling in the other translation unit is another type: access through it must be refused
 		// (nothing is printed; an accepted access sets integrity 4)
 		if (twin(t) >= 0) dispatch(twin(t), [&](auto* tag) { typedef TYPE_OF(tag) T; ll val = 0; if (Y<T>::cast(s, val) && integrity == 0) integrity = 4; });
+		// the other class of the polymorphic pair is another type as well - whatever the dynamic type of the held object is
+		if (kin(t) >= 0) dispatch(kin(t), [&](auto* tag) { typedef TYPE_OF(tag) T; ll val = 0; if (Y<T>::cast(s, val) && integrity == 0) integrity = 4; });
 	}
 	static void dumpLive(Obs& o) {
 		size_t n = 0; ll d = 0;
@@ -388,7 +447,7 @@ struct A {
 	void run(Case& c) {
 		H = c.next(); M = c.next();
 		if (H < 0 || H > 8 || M < 0 || M > 8) { o.add(-999); return; }
-		for (ll n = 0; n != M; ++n) { ll t = c.next() % NTY; if (t < 0) t += NTY; tys.push_back(t); }
+		for (ll n = 0; n != M; ++n) { ll t = c.next() % (NTY + 1); if (t < 0) t += NTY + 1; tys.push_back(t); }
 		for (ll i = 0; i != H; ++i) h.push_back(new Po::ValueStore());
 		vm = new Po::ValueMap();
 		for (ll n = 0; n != M; ++n) nv.push_back(makeNV(n));
@@ -425,7 +484,12 @@ struct A {
 			else if (op == 7) {
 				if (c.v.size() - c.p < 2) break;
 				ll ty = c.next(), v = c.next();
-				if (okty(ty)) dispatch(ty, [&](auto* tag) { typedef TYPE_OF(tag) T;
+				if (ty == ADOPT_DERIVED) {
+					// PBase* p = new PDerived(v): from here on the client's object is a PBase (tag 24) for every operation
+					PBase* p = new PDerived(norm(P_BASE, v));
+					CObj x = {(int)P_BASE, p}; cl.push_back(x);
+				}
+				else if (okty(ty)) dispatch(ty, [&](auto* tag) { typedef TYPE_OF(tag) T;
 					CObj x = {(int)ty, Y<T>::cnew(norm(ty, v))}; cl.push_back(x);
 				});
 			}
@@ -513,7 +577,7 @@ struct A {
 				if (c.v.size() - c.p < 3) break;
 				ll n = c.next(), v = c.next(), ok = c.next();
 				if (okm(n)) {
-					std::string text = ok == 0 ? std::string("bad") : std::to_string(norm(tys[(size_t)n], v));
+					std::string text = ok == 0 ? std::string("bad") : std::to_string(norm(staticTy(tys[(size_t)n]), v));
 					o.add(nv[(size_t)n]->parse(mname(n), text) ? 1 : 0);
 				}
 			}
